@@ -144,8 +144,24 @@ def work(chunk):
     outs = run_driver(jobs)
     results = []
     tw = [0, 0]
+    for k, (it, out) in enumerate(zip(chunk, outs)):
+        if 'lm' not in out and out.get('hang'):
+            # the whole job ran out of time (every option set of a model on which microlp does not return costs
+            # HANG_SECS): run each option set as its own job and merge, so each op is judged on its own outcome
+            singles = run_driver([{'cmd': 'lm', 'lm': it['lm'], 'ops': [[n, a]]} for n, a in it['ops']], per_job=8)
+            merged = {}
+            for (n, a), o in zip(it['ops'], singles):
+                if 'lm' in o:
+                    merged.update(o)
+                else:
+                    merged[op_key(n, a)] = {'hang': True} if o.get('hang') else {'panic': True, 'msg': str(o)[:200]}
+            if 'lm' in merged:
+                outs[k] = out = merged
     for it, out in zip(chunk, outs):
         try:
+            if 'lm' not in out:
+                results.append({'idx': it['idx'], 'fails': [], 'q': 0, 'unknown': [], 'status': 'fault', 'fault': 'driver gave no result for the job: %s' % str(out)[:300], 'outcomes': {}})
+                continue
             results.append(judge(it, out))
             if it['idx'] % 15 == 0:
                 # must-fail twin: pretend a limited run returned a worse value labelled Optimal
